@@ -104,7 +104,7 @@ class LayeredSphere(Sphere):
     def __init__(self, n=None, t=None, center=None):
         self.n = ensure_array(n)
         self.t = ensure_array(t)
-        self.center = center
+        CenteredScatterer.__init__(self, center)
 
         try:
             if np.any(self.t < 0):
